@@ -1177,7 +1177,10 @@ struct VecDriver {
                 if constexpr (etl::detail::is_movable_v<T>) {
                     int const val = static_cast<int>(st.v[0]);
                     ctx.log.kv("v", val);
-                    size_t ret = 0;
+                    size_t ret      = 0;
+                    int predCalls   = 0;
+                    int quota       = 0;
+                    bool sawForeign = false;
                     if constexpr (std::is_same_v<T, int>) {
                         // the value argument of the free erase has its own type: it is compared with every element as
                         // it is (std::erase), never converted to the element type first
@@ -1196,6 +1199,22 @@ struct VecDriver {
                     bool ok    = call(a, false, false, [&] {
                         if (op == "erase_value") {
                             ret = etl::erase(v, mk(val));
+                        } else if (st.k[0] % 3 == 1) {
+                            // a predicate with state: it accepts only the first `quota` matching elements and counts
+                            // its calls - every element is shown to it exactly once, in order, never in a moved-from state
+                            // (the state lives outside the predicate: algorithms may copy their function objects)
+                            quota = 1 + static_cast<int>(st.k[1] % 3);
+                            int q = quota;
+                            ret   = etl::erase_if(v, [val, &predCalls, &sawForeign, &q](T const& x) {
+                                ++predCalls;
+                                long long const xv = value_of(x);
+                                sawForeign         = sawForeign || xv == kMovedFrom || xv == -4242 || xv == -9999;
+                                if (xv % 2 == val % 2 && q > 0) {
+                                    --q;
+                                    return true;
+                                }
+                                return false;
+                            });
                         } else {
                             ret = etl::erase_if(v, [val](T const& x) { return value_of(x) % 2 == val % 2; });
                         }
@@ -1208,6 +1227,18 @@ struct VecDriver {
                                 want            = static_cast<size_t>(std::erase_if(m, [dv](int c) { return decode_float(c) == dv; }));
                             } else {
                                 want = static_cast<size_t>(std::erase(m, val));
+                            }
+                        } else if (quota != 0) {
+                            size_t const before = m.size();
+                            want                = static_cast<size_t>(std::erase_if(m, [val, q = quota](int x) mutable {
+                                if (x % 2 == val % 2 && q > 0) {
+                                    --q;
+                                    return true;
+                                }
+                                return false;
+                            }));
+                            if (predCalls != static_cast<int>(before) || sawForeign) {
+                                ctx.violation("C01", "diff:predicate-calls", "erase_if showed its predicate " + std::to_string(predCalls) + " elements for " + std::to_string(before) + (sawForeign ? " (one of them moved-from or destroyed)" : ""));
                             }
                         } else {
                             want = static_cast<size_t>(std::erase_if(m, [val](int x) { return x % 2 == val % 2; }));
@@ -2237,6 +2268,44 @@ struct ThrowDriver : DriverBase<ThrowDriver> {
             }
             return;
         }
+        if (op == "push_failing") {
+            // one append whose element constructor throws: like std::vector, the vector is left exactly as it was
+            if (model[a].size() == N) {
+                skip();
+                return;
+            }
+            int const how = static_cast<int>(st.k[0] % 4);
+            ctx.log.kv("how", how);
+            Thrower tmp(val);
+            bool threw = false;
+            g_fuse     = 0;
+            reg().mark_harness_held();
+            auto out = guarded(true, [&] {
+                try {
+                    switch (how) {
+                    case 0: (void)v.try_push_back(static_cast<Thrower const&>(tmp)); break;
+                    case 1: (void)v.try_push_back(static_cast<Thrower&&>(tmp)); break;
+                    case 2: (void)v.unchecked_push_back(static_cast<Thrower const&>(tmp)); break;
+                    default: (void)v.try_emplace_back(static_cast<Thrower const&>(tmp)); break;
+                    }
+                } catch (int) {
+                    threw = true;
+                }
+            });
+            g_fuse = -1;
+            if (out != Outcome::completed) {
+                ctx.violation("C05", "contract:spurious", "handler entered in an append at " + trap_site());
+                ctx.stop = true;
+                return;
+            }
+            ++ctx.faultsFired;
+            ++ctx.boundaryEvents;
+            SIM_COUNT("F8.element_constructor_failed_in_append");
+            if (!threw) {
+                ctx.violation("C03", "lifetime:exception-swallowed", "an exception thrown by the element constructor did not leave the append");
+            }
+            return; // the per-step observation checks that size, content and live elements are unchanged
+        }
         // rebuild b as a copy of / by moving from a; the fuse decides whether and where an element fails
         bool const move    = op == "move_construct";
         size_t const sz    = model[a].size();
@@ -2347,7 +2416,139 @@ struct ThrowDriver : DriverBase<ThrowDriver> {
 
     static auto ops() -> std::vector<OpDef> const&
     {
-        static std::vector<OpDef> const o = {{"push", 10}, {"pop", 3}, {"copy_construct", 6}, {"move_construct", 4}};
+        static std::vector<OpDef> const o = {{"push", 10}, {"pop", 3}, {"copy_construct", 6}, {"move_construct", 4}, {"push_failing", 5}};
+        return o;
+    }
+};
+
+// ================================================================================================ emplace arguments
+// emplace(pos, args...), emplace_back(args...), try_emplace_back(args...) construct T(args...) - with parentheses, like
+// std::vector. BagKey(a, b) and BagKey{a, b} are different values.
+template <bool Static>
+struct BagVecDriver : DriverBase<BagVecDriver<Static>> {
+    using Base = DriverBase<BagVecDriver<Static>>;
+    using Base::begin_op;
+    using Base::call;
+    using Base::ctx;
+    using Base::observe;
+    using Base::plan;
+    using Base::skip;
+    static constexpr size_t N = 4;
+    using Vec = std::conditional_t<Static, etl::static_vector<BagKey, N>, etl::inplace_vector<BagKey, N>>;
+
+    Vec* obj = nullptr;
+    std::vector<BagKey> model;
+
+    BagVecDriver(Plan const& p, Ctx& c)
+        : Base(p, c)
+    {
+    }
+
+    void resync(int)
+    {
+        guarded(false, [&] { model.assign(obj->begin(), obj->end()); });
+    }
+
+    auto check_state(int, char const* prop, char const* prefix) -> bool
+    {
+        bool same = true;
+        observe("vector<BagKey>", [&] {
+            same = obj->size() == model.size();
+            for (size_t i = 0; same && i < model.size(); ++i) {
+                same = (*obj)[i] == model[i];
+            }
+        });
+        if (!same) {
+            ctx.violation(prop, std::string(prefix) + ":elements", "the vector does not hold the elements std::vector holds after the same emplace calls");
+        }
+        return same;
+    }
+
+    void run()
+    {
+        obj = new (arena_prepare(0, sizeof(Vec), plan.cfg, 1, alignof(Vec))) Vec{};
+        for (size_t i = 0; i < plan.steps.size() && !ctx.stop; ++i) {
+            Step const& st = plan.steps[i];
+            ctx.step       = static_cast<int>(i);
+            g_crash.step   = ctx.step;
+            char const* name = ops()[static_cast<size_t>(st.op)].name;
+            std::string const op = name;
+            begin_op(name, 0);
+            int const x = static_cast<int>(static_cast<uint64_t>(st.v[0]) % 4);
+            int const y = static_cast<int>(static_cast<uint64_t>(st.v[1]) % 4);
+            size_t const pos = static_cast<size_t>(st.k[0] % (model.size() + 1));
+            ctx.log.kv("x", x);
+            ctx.log.kv("y", y);
+            ctx.log.kv("pos", static_cast<long long>(pos));
+            Vec& v = *obj;
+            if (op == "pop") {
+                if (model.empty()) {
+                    skip();
+                } else if (call(0, false, false, [&] { v.pop_back(); })) {
+                    model.pop_back();
+                }
+            } else if (model.size() == N) {
+                skip();
+            } else if (op == "emplace2") {
+                if constexpr (Static) {
+                    if (call(0, false, false, [&] { v.emplace(v.begin() + static_cast<long>(pos), x, y); })) {
+                        model.emplace(model.begin() + static_cast<long>(pos), x, y);
+                    }
+                } else {
+                    if (call(0, false, false, [&] { (void)v.try_emplace_back(x, y); })) {
+                        model.emplace_back(x, y);
+                    }
+                }
+            } else if (op == "emplace1") {
+                if constexpr (Static) {
+                    if (call(0, false, false, [&] { v.emplace(v.begin() + static_cast<long>(pos), x); })) {
+                        model.emplace(model.begin() + static_cast<long>(pos), x);
+                    }
+                } else {
+                    if (call(0, false, false, [&] { (void)v.unchecked_emplace_back(x); })) {
+                        model.emplace_back(x);
+                    }
+                }
+            } else {
+                if (call(0, false, false, [&] {
+                        if constexpr (Static) {
+                            v.emplace_back(x, y);
+                        } else {
+                            (void)v.unchecked_emplace_back(x, y);
+                        }
+                    })) {
+                    model.emplace_back(x, y);
+                }
+            }
+            if (!check_state(0, "C01", "diff:emplace-arguments")) {
+                resync(0);
+            }
+            if (!arena_guards_ok(0)) {
+                ctx.violation("C02", "memory:guard-damaged", "guard bytes around the vector were overwritten");
+                arena_guards_repair(0);
+            }
+            uint64_t eh = model.size();
+            for (auto const& k : model) {
+                eh = mix64(eh ^ static_cast<uint64_t>(k.code()));
+            }
+            ctx.log.feed(eh);
+            if (g_counting) {
+                states().insert(mix64(eh ^ hstr(plan.scenario.c_str())));
+                transitions().insert(mix64(eh ^ hstr(ctx.op)));
+            }
+            ++ctx.stateChanging;
+            if (model.size() == N || model.empty()) {
+                ++ctx.boundaryEvents;
+            }
+            ctx.log.nl();
+        }
+        guarded(true, [&] { obj->~Vec(); });
+        arena_retire(0);
+    }
+
+    static auto ops() -> std::vector<OpDef> const&
+    {
+        static std::vector<OpDef> const o = {{"emplace2", 8}, {"emplace1", 5}, {"emplace_back2", 5}, {"pop", 4}};
         return o;
     }
 };
@@ -2523,6 +2724,32 @@ void register_vec_1()
         s.maxSteps = 30;
         s.run      = [](Plan const& p, Ctx& c) {
             ThrowDriver d(p, c);
+            d.run();
+        };
+        registry().push_back(std::move(s));
+    }
+    {
+        Scenario s;
+        s.family   = "vec";
+        s.name     = "static_vector<BagKey,4>";
+        s.ops      = BagVecDriver<true>::ops();
+        s.props    = {"C01", "C02"};
+        s.maxSteps = 20;
+        s.run      = [](Plan const& p, Ctx& c) {
+            BagVecDriver<true> d(p, c);
+            d.run();
+        };
+        registry().push_back(std::move(s));
+    }
+    {
+        Scenario s;
+        s.family   = "vec";
+        s.name     = "inplace_vector<BagKey,4>";
+        s.ops      = BagVecDriver<false>::ops();
+        s.props    = {"C01", "C02"};
+        s.maxSteps = 20;
+        s.run      = [](Plan const& p, Ctx& c) {
+            BagVecDriver<false> d(p, c);
             d.run();
         };
         registry().push_back(std::move(s));
